@@ -709,11 +709,14 @@ pub fn run(ctx: &Ctx) -> i32 {
             let crowd = !with_time && ctx.prop == "C12" && i % 300 == 7;
             let marathon = !with_time && i % 1500 == 11;
             let counter = !with_time && ctx.prop == "C12" && i % 3000 == 13;
-            let h = if crowd { gen_crowd(r) } else if counter { gen_counter(r) } else if marathon { gen_marathon(r) } else { gen_history(r, kind, with_time) };
+            // C12-C14 also see time pass (and aircraft expire) in every fifth history: a pairing or
+            // attribute rule that depends on the clock must not hide behind a frozen one
+            let timed = with_time || i % 5 == 3;
+            let h = if crowd { gen_crowd(r) } else if counter { gen_counter(r) } else if marathon { gen_marathon(r) } else { gen_history(r, kind, timed) };
             let kind = h.kind;
             slot.begin(|| format!("tracker history #{i} kind {kind}"));
             let planes = run_history(&ctx.g, col, &h, usize::MAX);
-            if !with_time {
+            if !timed {
                 if let Some((p, n)) = &planes {
                     if i % 4 == 0 {
                         isolation(&ctx.g, col, &h, p, *n);
@@ -745,7 +748,7 @@ pub fn run(ctx: &Ctx) -> i32 {
             vec!["SystemTime::now()/elapsed() resolve to the interposed clock_gettime (cross-checked by a real-time run without interposition)", "time is logical: the verdict never depends on wall-clock"],
         ),
         _ => (
-            "seeded histories of 40-1500 real frames (encoder -> bytes -> Frame::from_bytes -> Airplanes::action) over 1-12 aircraft: consistent flights, teleports of 99/101/150/5000 km, range-circle crossings, garbage CPR pairs, duplicates, same-parity runs, identification/velocity (with and without derived velocity)/other ES payloads, DF18 with every CF and PI != 0, non-ES formats addressed to tracked aircraft; 10 receivers incl. poles/antimeridian, 5 ranges, every fourth history with a receiver that moves (0.3-60 km steps) and changes its range setting between frames; every sixth history with a shadow aircraft under the neighbouring address sending bit-identical position reports; one 66-72k-frame single-aircraft session per 3000 histories (C12: exact count beyond 2^16); after every step a snapshot of the real tracker (records, details, all_position, Display) is compared with the sequential model; isolation replay for up to 6 aircraft of every 4th history; distinct_nontrivial = histories",
+            "seeded histories of 40-1500 real frames (encoder -> bytes -> Frame::from_bytes -> Airplanes::action) over 1-12 aircraft: consistent flights, teleports of 99/101/150/5000 km, range-circle crossings, garbage CPR pairs, duplicates, same-parity runs, identification/velocity (with and without derived velocity)/other ES payloads, DF18 with every CF and PI != 0, non-ES formats addressed to tracked aircraft; 10 receivers incl. poles/antimeridian, 5 ranges, every fourth history with a receiver that moves (0.3-60 km steps) and changes its range setting between frames; every fifth history on the virtual clock with time passing and expiry (advance / prune steps as in C15); every sixth history with a shadow aircraft under the neighbouring address sending bit-identical position reports; one 66-72k-frame single-aircraft session per 3000 histories (C12: exact count beyond 2^16); after every step a snapshot of the real tracker (records, details, all_position, Display) is compared with the sequential model; isolation replay for up to 6 aircraft of every 4th history; distinct_nontrivial = histories",
             vec!["events are derived from the frame bytes by the reference model, not by the decoder under test", "decisions within a 1e-9 relative band of the range/jump thresholds follow the implementation (counted)"],
         ),
     };
